@@ -608,6 +608,22 @@ def emit_forms10(w, src, must):
     pos = bool(re.search(r"create_timer_from_response\(\s*\w+\s*\)\s*\?", b)) and not neg
     w("(* Initiator::create_session makes the session timer from the Session-Expires of the 2xx alone *)")
     flag(w, "session_timer_from_header", pos, neg, "what Initiator::create_session makes the session timer from")
+    st = src("crates/stun/src/lib.rs")
+    b = _fn_body(st, r"pub async fn send_request\b")
+    def _events(body, depth=0):
+        """textual order of table insertions (I) and transmissions (S) in a function body, looking one level into helper methods"""
+        ev = [(m.start(), "S") for m in re.finditer(r"send_to\(", body)] + [(m.start(), "I") for m in re.finditer(r"\.insert\(", body)]
+        if depth < 2:
+            for m in re.finditer(r"self\s*\.\s*(\w+)\(", body):
+                hb = _fn_body(st, r"fn %s\b" % re.escape(m.group(1))) if m.group(1) not in ("send_request",) else ""
+                if hb:
+                    ev += [(m.start(), k) for _, k in _events(hb, depth + 1)]
+        return sorted(ev, key=lambda e: e[0])
+    order = "".join(k for _, k in _events(b))
+    neg = bool(re.search(r"S.*I", order))
+    pos = bool(re.match(r"I+S+$", order))
+    w("(* StunEndpoint::send_request enters the transaction id into the table before the first transmission is handed to the transport *)")
+    flag(w, "stun_tsx_registered_before_send", pos, neg, "where StunEndpoint::send_request registers the transaction id relative to the first send_to")
     w("")
 
 
